@@ -23,17 +23,23 @@ RULE = ("scripts on the virtual clock (tick 0.25 s): 1..3 arrivals on the slots 
         "wait/cancel/start, guard_time None or 2 ticks, stop_data present/absent; same-instant placement B/T/A "
         "(before / among / after the block's own timers of that instant) per arrival for <=2 arrivals (x stop "
         "placement B/T/A) and uniform per script for 3 arrivals (stop placed A); durations and slots are chosen so "
-        "that arrivals coincide with completions, fall into the guard time and onto its end. thorough enumerates "
-        "this grid completely and adds random scripts with 4 arrivals on 10 slots, durations 1..4, mixed "
-        "placements, any number of failing runs and guard 1..3; quick takes a random 4 % sample of the grid plus "
-        "3000 random scripts. Compared with the Lean model: the complete time-stamped log of output changes, "
+        "that arrivals coincide with completions, fall into the guard time and onto its end; stop_timeout never "
+        "expires in this part. Expiry part: the same arrivals (placed B), stop placed B/T/A (<=2 arrivals) or A (3), "
+        "stop_timeout 2/3/5 ticks (3 only for 3 arrivals), so that the deadline falls before / exactly onto / after "
+        "the end of the pending work, onto coroutine ends, into and onto the end of guard sleeps. Abort part: "
+        "on_error=(probe, Event.abort()) with exactly one failing run among <=2 arrivals: the failing run itself "
+        "stops the simulation (stop() is recorded where it really happens), stop_timeout big or 3. thorough "
+        "enumerates both parts completely and adds random scripts with 4 arrivals on 10 slots, durations 1..4, mixed "
+        "placements, any number of failing runs, guard 1..3 and (40 %) a stop_timeout of 1..12 ticks, (15 %) on_error=Event.abort(); quick "
+        "takes a random 3 % sample of the first two parts, 20 % of the abort part, plus 3000 random scripts. Compared with the Lean model: the complete time-stamped log of output changes, "
         "coroutine start/end/cancellation and success/error/cancel events in the implementation's order (start "
         "mode: per instant as a set plus the output at the end of the instant, because equal timers fire in heap "
         "order), and the instant at which stop_async finished. distinct = hash of (lines, trace); non-trivial = at "
         "least one accepted put")
 ASSUMPTIONS = [
     "user coroutines are scripts (sleep d, then return or raise) that do not catch CancelledError",
-    "stop_timeout is large enough for all pending work (its expiry is outside the model); guard_time <= stop_timeout",
+    "guard_time <= stop_timeout (the constructor refuses anything else); the OutputAsync block is the only block "
+    "with a stop_async, so its stop_timeout clock starts in the instant of stop()",
     "puts are external events: after shutdown() has been called they are refused by the circuit and never reach the block",
     "same-instant ties: the harness records whether a stimulus preceded the block's pending timer/controller step "
     "(flag `pre`, read from the fired coroutine timer, the last output decrement and the control task's awaited "
@@ -44,6 +50,8 @@ EXHAUSTIVE = {'quick': False, 'thorough': True}
 
 TICK = 250000           # µs
 SD_ID, SD_DUR = 99, 2   # stop_data: id and duration (ticks)
+BIG_TIMEOUT = 4000      # ticks; the default stop_timeout of a scenario (never expires)
+TIMEOUTS = (2, 3, 5)    # short stop_timeouts (ticks) of the expiry part of the grid
 MODES = ('wait', 'cancel', 'start')
 SLOTS = (0, 1, 2, 3, 4, 6)
 DURS = (1, 3)
@@ -75,12 +83,52 @@ def grid():
                                                    'puts': puts, 'stop': [stop, sp]}
 
 
+def grid_timeouts():
+    """the expiry part of the grid: short stop_timeouts (see RULE)"""
+    for k in (1, 2, 3):
+        for slots in itertools.combinations_with_replacement(SLOTS, k):
+            for durs in itertools.product(DURS, repeat=k):
+                for failing in range(-1, k):
+                    puts = [[slots[i], 'B', durs[i], i == failing] for i in range(k)]
+                    for stop in STOPS:
+                        for sp in (PLACES if k <= 2 else 'A'):
+                            for to in (TIMEOUTS if k <= 2 else TIMEOUTS[1:2]):
+                                for mode in MODES:
+                                    for guard in (0, GUARD):
+                                        for sd in (False, True):
+                                            yield {'mode': mode, 'guard': guard, 'stop_data': sd, 'puts': puts,
+                                                   'stop': [stop, sp], 'stop_timeout': to}
+
+
+def grid_abort():
+    """on_error=Event.abort(): the failing run itself stops the simulation (see RULE)"""
+    for k in (1, 2):
+        for slots in itertools.combinations_with_replacement(SLOTS, k):
+            for durs in itertools.product(DURS, repeat=k):
+                for failing in range(k):
+                    puts = [[slots[i], 'B', durs[i], i == failing] for i in range(k)]
+                    for to in (None, TIMEOUTS[1]):
+                        for mode in MODES:
+                            for guard in (0, GUARD):
+                                for sd in (False, True):
+                                    scn = {'mode': mode, 'guard': guard, 'stop_data': sd, 'puts': puts,
+                                           'stop': [12, 'A'], 'abort': True}
+                                    if to:
+                                        scn['stop_timeout'] = to
+                                    yield scn
+
+
 def random_scn(rng):
     k = 4 if rng.random() < 0.8 else rng.randint(1, 6)
     puts = sorted(([rng.randrange(10), rng.choice(PLACES), rng.randint(1, 4), rng.random() < 0.2]
                    for _ in range(k)), key=lambda p: p[0])
-    return {'mode': rng.choice(MODES), 'guard': rng.choice([0, 0, 1, 2, 3]), 'stop_data': rng.random() < 0.5,
-            'puts': puts, 'stop': [rng.choice([1, 2, 3, 5, 8, 11, 14]), rng.choice(PLACES)]}
+    scn = {'mode': rng.choice(MODES), 'guard': rng.choice([0, 0, 1, 2, 3]), 'stop_data': rng.random() < 0.5,
+           'puts': puts, 'stop': [rng.choice([1, 2, 3, 5, 8, 11, 14]), rng.choice(PLACES)]}
+    if rng.random() < 0.4:
+        scn['stop_timeout'] = rng.randint(max(1, scn['guard']), 12)
+    if rng.random() < 0.15:
+        scn['abort'] = True
+    return scn
 
 
 FIXED = [
@@ -92,6 +140,12 @@ FIXED = [
     {'mode': 'wait', 'guard': 1, 'stop_data': True, 'puts': [[0, 'B', 3, False], [1, 'A', 3, True]], 'stop': [2, 'B']},
     {'mode': 'start', 'guard': 0, 'stop_data': True, 'puts': [[0, 'B', 3, False], [1, 'T', 2, False]], 'stop': [3, 'B']},
     {'mode': 'start', 'guard': 2, 'stop_data': True, 'puts': [], 'stop': [1, 'A']},
+    # stop_timeout expiry: during a coroutine, exactly at its end, during the guard sleep, during stop_data
+    {'mode': 'wait', 'guard': 0, 'stop_data': True, 'stop_timeout': 4, 'puts': [[0, 'B', 3, False], [1, 'B', 3, False], [1, 'B', 3, False]], 'stop': [2, 'A']},
+    {'mode': 'wait', 'guard': 2, 'stop_data': True, 'stop_timeout': 2, 'puts': [[0, 'B', 3, False], [1, 'B', 3, False]], 'stop': [2, 'A']},
+    {'mode': 'cancel', 'guard': 2, 'stop_data': True, 'stop_timeout': 4, 'puts': [[0, 'B', 3, False], [1, 'B', 3, False]], 'stop': [2, 'T']},
+    {'mode': 'start', 'guard': 2, 'stop_data': True, 'stop_timeout': 6, 'puts': [[0, 'B', 3, False], [1, 'B', 3, False]], 'stop': [2, 'A']},
+    {'mode': 'start', 'guard': 0, 'stop_data': True, 'stop_timeout': 2, 'puts': [[0, 'B', 3, False], [1, 'B', 3, False], [1, 'B', 1, True]], 'stop': [2, 'B']},
 ]
 
 
@@ -99,12 +153,20 @@ def scenarios(rng, tier):
     yield from FIXED
     if tier == 'quick':
         for scn in grid():
-            if rng.random() < 0.04:
+            if rng.random() < 0.03:
+                yield scn
+        for scn in grid_timeouts():
+            if rng.random() < 0.03:
+                yield scn
+        for scn in grid_abort():
+            if rng.random() < 0.2:
                 yield scn
         nrandom = 3000
     else:
         yield from grid()
-        nrandom = 60000
+        yield from grid_timeouts()
+        yield from grid_abort()
+        nrandom = 40000
     for _ in range(nrandom):
         yield random_scn(rng)
 
@@ -117,6 +179,10 @@ def shrink(scn):
         yield {**scn, 'stop_data': False}
     if scn['guard']:
         yield {**scn, 'guard': 0}
+    if 'stop_timeout' in scn:
+        yield {k: v for k, v in scn.items() if k != 'stop_timeout'}
+    if scn.get('abort'):
+        yield {k: v for k, v in scn.items() if k != 'abort'}
     for i, p in enumerate(puts):
         if p[3]:
             yield {**scn, 'puts': puts[:i] + [[p[0], p[1], p[2], False]] + puts[i + 1:]}
@@ -202,8 +268,10 @@ class _Run:
         oa = edzed.OutputAsync(
             'oa', coro=self.work, mode=scn['mode'], f_args=['id', 'dur'], f_kwargs=['fail'],
             guard_time=(scn['guard'] * TICK / 1e6 if scn['guard'] else None),
-            on_success=edzed.Event(p, 'succ'), on_cancel=edzed.Event(p, 'canc'), on_error=edzed.Event(p, 'err'),
-            stop_data=sd, stop_timeout=scn.get('stop_timeout', 4000) * TICK / 1e6,
+            on_success=edzed.Event(p, 'succ'), on_cancel=edzed.Event(p, 'canc'),
+            # 'abort': the customary on_error=Event.abort() -- a failing run shuts the simulation down
+            on_error=((edzed.Event(p, 'err'), edzed.Event.abort()) if scn.get('abort') else edzed.Event(p, 'err')),
+            stop_data=sd, stop_timeout=scn.get('stop_timeout', BIG_TIMEOUT) * TICK / 1e6,
             on_output=edzed.Event(p, 'out'))
         self.oa = oa
         orig_stop = oa.stop
@@ -301,7 +369,7 @@ def run_impl(scn):
     run = execute(scn)
     mode = scn['mode']
     sd = f'{SD_ID}:{SD_DUR * TICK}:0' if scn['stop_data'] else '-'
-    lines = [f"oasync reset {mode} {scn['guard'] * TICK} {sd}"]
+    lines = [f"oasync reset {mode} {scn['guard'] * TICK} {sd} {scn.get('stop_timeout', BIG_TIMEOUT) * TICK}"]
     trace = ['ok']
     for st in run.stim:
         if st[0] == 'put':
@@ -322,7 +390,8 @@ def run_impl(scn):
     lines.append('oasync log')
     trace.append(fmt_log(run.log, mode))
     accepted = [st for st in run.stim if st[0] == 'put' and st[7]]
-    tags = [f'mode={mode}', f"guard={'y' if scn['guard'] else 'n'}", f"stop_data={int(scn['stop_data'])}",
+    tags = ['on_error=abort'] if scn.get('abort') else []
+    tags += [f'mode={mode}', f"guard={'y' if scn['guard'] else 'n'}", f"stop_data={int(scn['stop_data'])}",
             f'nputs={len(accepted)}']
     kinds = {k for _, k, _ in run.log}
     tags += [f'seen={k}' for k in sorted(kinds & {'cancelled', 'canc', 'err'})]
@@ -330,6 +399,17 @@ def run_impl(scn):
         tags.append('batch')
     if any(st[2] == 0 for st in run.stim):
         tags.append('tie-after-timer')
+    stop_t = next((st[1] for st in run.stim if st[0] == 'stop'), None)
+    if stop_t is not None and 'stop_timeout' in scn:
+        dl = stop_t + scn['stop_timeout'] * TICK
+        if run.end_us is not None and run.end_us > dl:
+            tags.append('stop_timeout-expired')
+            if any(k == 'start' and t >= dl for t, k, _ in run.log):
+                tags.append('run-started-after-deadline')
+        if any(k == 'cancelled' and t == dl for t, k, _ in run.log):
+            tags.append('cancelled-by-stop_timeout')
+        if run.end_us == dl:
+            tags.append('work-ends-at-deadline')
     return {'lines': lines, 'trace': trace, 'tags': tags, 'nontrivial': len(accepted) > 0,
             'log': run.log, 'stim': run.stim, 'results': [(t, k, i, _plain(d)) for t, k, i, d in run.results],
             'end_us': run.end_us, 'final_error': repr(run.final_error), 'init_error': repr(run.init_error)}
@@ -362,7 +442,14 @@ def oracle(scn, res):
     if res['init_error'] != 'None':
         bad('simulation_runs', f"start-up failed: {res['init_error']}")
         return out
-    if res['final_error'] != 'None':
+    # on_error=Event.abort(): a run failing before the shutdown was requested must end the simulation with
+    # that error; a failure in the instant of the request may come first or second
+    t_req = scn['stop'][0] * TICK
+    err_times = [t for t, k, _, _ in res['results'] if k == 'err'] if scn.get('abort') else []
+    if any(t < t_req for t in err_times):
+        if 'RuntimeError' not in res['final_error']:
+            bad('abort_on_error', f"on_error=Event.abort(): a run failed but the simulation ended with {res['final_error']}")
+    elif res['final_error'] != 'None' and not (any(t == t_req for t in err_times) and 'RuntimeError' in res['final_error']):
         bad('simulation_runs', f"the simulation ended with {res['final_error']} instead of a normal shutdown")
     arrivals = [(st[1], st[4], st[5], st[6]) for st in stim if st[0] == 'put' and st[7]]   # (t, id, dur, fail) in arrival order
     stops = [st for st in stim if st[0] == 'stop']
@@ -370,6 +457,7 @@ def oracle(scn, res):
         bad('stop_called_once', f'stop() was called {len(stops)} times')
         return out
     t_stop = stops[0][1]
+    deadline = t_stop + scn.get('stop_timeout', BIG_TIMEOUT) * TICK      # expiry of stop_timeout
     order = [a[1] for a in arrivals]
     script = {a[1]: a for a in arrivals}
     if scn['stop_data']:
@@ -467,16 +555,16 @@ def oracle(scn, res):
     if mode == 'wait':
         if started != order:
             bad('wait_fifo', f'runs started in order {started}, arrivals {order}')
-        if cancels or any(k == 'canc' for _, k, _ in log):
-            bad('wait_never_cancels', f'cancellation in wait mode: {cancels}')
+        if any(k in ('canc', 'cancelled') and t != deadline for t, k, _ in log):
+            bad('wait_never_cancels', f'cancellation in wait mode (not at the expiry of stop_timeout {deadline}): {cancels}')
     if mode == 'start':
         for i in order:
             if i == SD_ID:
                 continue
             if i not in starts or starts[i][0] != arrival_time[i]:
                 bad('start_at_arrival', f'put {i} arrived at {arrival_time[i]}, started at {starts.get(i)}')
-        if cancels or any(k == 'canc' for _, k, _ in log):
-            bad('start_never_cancels', f'cancellation in start mode: {cancels}')
+        if any(k in ('canc', 'cancelled') and t != deadline for t, k, _ in log):
+            bad('start_never_cancels', f'cancellation in start mode (not at the expiry of stop_timeout {deadline}): {cancels}')
     if mode == 'cancel' and order:
         rank = {i: n for n, i in enumerate(order)}
         for i, rs in results.items():
@@ -484,11 +572,12 @@ def oracle(scn, res):
                 if k != 'canc' or i not in rank:
                     continue
                 newer = [j for j in order if rank[j] > rank[i] and arrival_time[j] <= t]
-                if not newer:
+                if not newer and not (t == deadline and i in cancels):
                     bad('cancel_only_by_newer', f'put {i} reported cancelled at {t} although nothing newer had arrived',
                         started=i in starts)
         last = order[-1]
-        if [k for _, k, _ in results.get(last, [])] not in (['succ'], ['err']):
+        if ([k for _, k, _ in results.get(last, [])] not in (['succ'], ['err'])
+                and not (last in cancels and cancels[last][0] == deadline)):
             bad('latest_completes', f'the most recent put {last} did not run to completion: '
                 f'{[(t, k) for t, k, _ in results.get(last, [])]}')
         for i in cancels:
@@ -496,14 +585,22 @@ def oracle(scn, res):
                 bad('cancel_only_by_newer', f'run {i} both ended and was cancelled')
 
     # -- stop: pending work completed within stop_timeout, stop_data processed last
-    timeout = scn.get('stop_timeout', 4000) * TICK
-    if res['end_us'] is None or res['end_us'] - t_stop > timeout:
-        bad('stop_within_timeout', f"clean-up finished at {res['end_us']}, stop at {t_stop}, stop_timeout {timeout}")
+    # the work either is complete by the deadline, or the expiry cancels what is running then (whatever
+    # coroutine runs across the deadline must have been cancelled exactly at it)
+    if res['end_us'] is None:
+        bad('stop_completes_pending_work', 'stop_async never finished')
     elif log and res['end_us'] < log[-1][0]:
         bad('stop_completes_pending_work', f"activity at {log[-1][0]} after the clean-up finished at {res['end_us']}")
+    for i in started:
+        if starts[i][0] < deadline and (over(i) is None or over(i) > deadline):
+            bad('stop_within_timeout', f'run {i} (started {starts[i][0]}, over {over(i)}) runs across the expiry of '
+                f'stop_timeout at {deadline} (stop at {t_stop})')
+    for i in cancels:
+        if cancels[i][0] == deadline and mode != 'cancel' and starts[i][0] > deadline:
+            bad('stop_within_timeout', f'run {i} cancelled at {deadline} before it started')
     if scn['stop_data']:
         r = results.get(SD_ID, [])
-        if [k for _, k, _ in r] != ['succ']:
+        if [k for _, k, _ in r] != ['succ'] and not (SD_ID in cancels and cancels[SD_ID][0] == deadline):
             bad('stop_data_last', f'stop_data run did not succeed: {[(t, k) for t, k, _ in r]}')
         elif res['results'][-1][2] != SD_ID:
             bad('stop_data_last', f"the last result event is for put {res['results'][-1][2]}, not for stop_data")
